@@ -13,13 +13,23 @@
       `ε ≤ tolerance'` (`tolerance' = tolerance > 0 ? tolerance : 1e-8`, the chain's effective tolerance);
     * the returned `y`, `err_z` are `write_solution`'s formulas on the constraint values of the forward
       roll-out of the returned inputs (C03_Ocp).
-  Over a linearly ordered field: the returned inputs lie in `U`, and for the ∞-norm criteria every
-  component of the residual `Π_U(u − γ∇ψ(u)) − u` (resp. with γ = 1, resp. divided by γ) is within
-  `tolerance'`; the returned point is `u + p`, at distance `‖p‖∞ ≤ tolerance'` from `u`.
+  Over a linearly ordered field (`ocp_converged_certifies_real`, all six supported criteria, explicit fuel
+  bound `FuelOK` instead of `fuelOut = false`): the returned inputs lie in `U` and are
+  `û = Π_U(u − γ∇ψ(u))` for the *certified point* `u` = the `u` of the iterate that was current at exit
+  (`Result.final`), and the documented stationarity measure of the selected criterion **at `u`** —
+  `‖u − Π_U(u − γ∇ψ(u))‖∞` (ProjGradNorm), its 2-norm (ProjGradNorm2, stage-accumulated sum of squares =
+  `Σ vᵢ²` for `N·nu` entries), the same with `γ = 1` (ProjGradUnitNorm, ProjGradUnitNorm2), the same divided
+  by `γ` (FPRNorm, FPRNorm2) — is within `tolerance'` (`CritWithin`).  The measure at the *returned* point `û`
+  is not bounded by the tolerance: open finding `C13:residual-at-returned-point-exceeds-tolerance`.
+  One-sided / unbounded input boxes: `ocp_converged_certifies_real_ext` (extended bounds `Option α`, finite
+  stand-ins that are far enough for the certified step, `Props/C03_Ocp.FarAt`).
   What makes "∇ψ" the true gradient of the true cost is C12 (`forward` / `backward` oracles).
 -/
 import Alpaqa.Props.C03_Ocp
 import Alpaqa.Props.C06_Ocp
+import Alpaqa.Proofs.C06Spec
+import Alpaqa.Proofs.C08Scalar
+import Mathlib.Analysis.Real.Sqrt
 
 namespace Alpaqa.Props.C13
 open Alpaqa Alpaqa.Ocp Alpaqa.Gen Alpaqa.Props
@@ -176,44 +186,305 @@ theorem projStepV_eq_proj (hnn : ∀ x : α, RealLike.isNaN x = false) (γ : α)
           simp only [projStepV, vadd, vzip, List.zipWith_cons_cons, projGradV] at h2 ⊢
           rw [h1, h2]
 
-/-- **`Converged` certifies, real-number reading** (criterion `ProjGradNorm`; the other ∞-norm criteria
-    are analogous through `crit_formulas`): the returned inputs lie in `U`, they are `u + p` for the final
-    iterate `u`, and every component of the projected-gradient residual `p = Π_U(u − γ∇ψ(u)) − u` of the
-    final iterate — with `∇ψ(u)` the backward oracle on the forward roll-out of `u` — is within the
-    effective tolerance. -/
+/-! #### The documented stationarity measures
+
+`docRes γ u g = u − Π_U(u − γ g)` is the residual vector of the doc comments of `PANOCStopCrit`
+(`x − Π_C(x − γ∇ψ(x))`); `maxAbs` is `‖·‖∞`; the 2-norm criteria use `√(stageSumSq …)`, the square root of the
+sum of squares accumulated stage by stage (`eval_prox_impl`), which is `√(Σ vᵢ²)` for a vector of `N·nu`
+entries (`stageSumSq_eq_sumSq`). -/
+open C06Spec
+
+/-- `x − Π_U(x − γ g)` -/
+def docRes (γ : α) (u g lb ub : Vec α) : Vec α := vsub u (projGradV γ u g lb ub)
+
+/-- `‖v‖²` accumulated stage by stage, as `eval_prox_impl` does -/
+def stageSumSq (P : Prob α) (v : Vec α) : α :=
+  (stages P.N P.nu v).foldl (fun acc pt => acc + sqNorm pt) 0
+
+theorem docRes_abs (hnn : ∀ x : α, RealLike.isNaN x = false) (γ : α) (u g lb ub : Vec α) :
+    (docRes γ u g lb ub).map (fun a => |a|) = (projStepV γ u g lb ub).map (fun a => |a|) := by
+  unfold docRes vsub vzip
+  induction u generalizing g lb ub with
+  | nil => simp [projStepV, projGradV]
+  | cons x xs ih =>
+    cases g with
+    | nil => simp [projStepV, projGradV]
+    | cons gi gs =>
+      cases lb with
+      | nil => simp [projStepV, projGradV]
+      | cons l ls =>
+        cases ub with
+        | nil => simp [projStepV, projGradV]
+        | cons hh hs =>
+          simp only [projStepV, projGradV, List.zipWith_cons_cons, List.map_cons, List.cons.injEq]
+          refine ⟨?_, ih gs ls hs⟩
+          rw [← C03_Ocp.projStep1_eq_proj hnn γ gi x l hh, ← abs_neg]
+          congr 1; ring
+
+theorem foldl_sqNorm_eq (l : List (Vec α)) (a : α) :
+    l.foldl (fun acc pt => acc + sqNorm pt) a = a + (l.map sqNorm).sum := by
+  induction l generalizing a with
+  | nil => simp
+  | cons x xs ih => simp [ih, add_assoc]
+
+theorem stageSumSq_eq_sum (P : Prob α) (v : Vec α) :
+    stageSumSq P v = ((stages P.N P.nu v).map sqNorm).sum := by
+  unfold stageSumSq; rw [foldl_sqNorm_eq, zero_add]
+
+theorem stageSumSq_congr_abs (P : Prob α) (v w : Vec α)
+    (h : v.map (fun a => |a|) = w.map (fun a => |a|)) : stageSumSq P v = stageSumSq P w := by
+  rw [stageSumSq_eq_sum, stageSumSq_eq_sum]
+  unfold stages
+  rw [List.map_map, List.map_map]
+  congr 1
+  apply List.map_congr_left
+  intro t _
+  simp only [Function.comp]
+  rw [sqNorm_eq_sumSq, sqNorm_eq_sumSq]
+  apply sumSq_congr_abs
+  rw [List.map_take, List.map_drop, List.map_take, List.map_drop, h]
+
+theorem sumSq_append (a b : List α) : sumSq (a ++ b) = sumSq a + sumSq b := by
+  unfold sumSq; simp
+
+/-- for a vector with exactly `N·nu` entries the stage-wise accumulation is the plain sum of squares -/
+theorem stageSumSq_eq_sumSq (P : Prob α) (v : Vec α) (h : v.length = P.N * P.nu) :
+    stageSumSq P v = sumSq v := by
+  rw [stageSumSq_eq_sum]
+  unfold stages
+  have key : ∀ (n : Nat) (w : Vec α), w.length = n * P.nu →
+      (((List.range n).map fun t => (w.drop (t * P.nu)).take P.nu).map sqNorm).sum = sumSq w := by
+    intro n
+    induction n with
+    | zero =>
+      intro w hw
+      have : w = [] := List.eq_nil_of_length_eq_zero (by simpa using hw)
+      subst this; simp [sumSq]
+    | succ n ih =>
+      intro w hw
+      rw [List.range_succ_eq_map, List.map_cons, List.map_cons, List.sum_cons, List.map_map, List.map_map]
+      have hmul : (n + 1) * P.nu = n * P.nu + P.nu := Nat.succ_mul n P.nu
+      have hw' : (w.drop P.nu).length = n * P.nu := by
+        rw [List.length_drop, hw]; omega
+      have := ih (w.drop P.nu) hw'
+      have e : ((List.range n).map ((sqNorm ∘ fun t => (w.drop (t * P.nu)).take P.nu) ∘ Nat.succ))
+          = ((List.range n).map fun t => ((w.drop P.nu).drop (t * P.nu)).take P.nu).map sqNorm := by
+        rw [List.map_map]
+        apply List.map_congr_left
+        intro t _
+        simp only [Function.comp, List.drop_drop]
+        have : (t + 1) * P.nu = P.nu + t * P.nu := by rw [Nat.succ_mul]; omega
+        rw [this]
+      rw [e, this]
+      simp only [Nat.zero_mul, List.drop_zero]
+      rw [sqNorm_eq_sumSq, ← sumSq_append, List.take_append_drop]
+  exact key P.N v h
+
+/-- **The documented stationarity measure of criterion `c` at the point `u`** (step size `γ`, gradient
+    `g`, input box `U` repeated over the stages) **is within `tol`.**  The four criteria PANOC-OCP does not
+    implement give `False`. -/
+def CritWithin (P : Prob α) (c : PANOCStopCrit) (γ : α) (u g : Vec α) (tol : α) : Prop :=
+  match c with
+  | .ProjGradNorm => maxAbs (docRes γ u g (tile P.N P.Ulb) (tile P.N P.Uub)) ≤ tol
+  | .ProjGradNorm2 =>
+    RealLike.sqrt (stageSumSq P (docRes γ u g (tile P.N P.Ulb) (tile P.N P.Uub))) ≤ tol
+  | .ProjGradUnitNorm => maxAbs (docRes 1 u g (tile P.N P.Ulb) (tile P.N P.Uub)) ≤ tol
+  | .ProjGradUnitNorm2 =>
+    RealLike.sqrt (stageSumSq P (docRes 1 u g (tile P.N P.Ulb) (tile P.N P.Uub))) ≤ tol
+  | .FPRNorm => γ⁻¹ * maxAbs (docRes γ u g (tile P.N P.Ulb) (tile P.N P.Uub)) ≤ tol
+  | .FPRNorm2 =>
+    γ⁻¹ * RealLike.sqrt (stageSumSq P (docRes γ u g (tile P.N P.Ulb) (tile P.N P.Uub))) ≤ tol
+  | _ => False
+
+/-- the generated criterion of a consistent iterate is the documented measure -/
+theorem epsOf_eq_doc (hnn : ∀ x : α, RealLike.isNaN x = false) (P : Prob α) (pr : Params α)
+    (it : Iterate α) (h : ProxCons P it) (e : α) (he : epsOf P pr it = some e) (tol : α) (hle : e ≤ tol) :
+    CritWithin P pr.stopCrit it.gamma it.u it.gradPsi tol := by
+  have hcf := crit_formulas P pr it h
+  have hp : ∀ γ : α, (evalProxImpl P γ it.u it.gradPsi).2.1 =
+      projStepV γ it.u it.gradPsi (tile P.N P.Ulb) (tile P.N P.Uub) := fun _ => rfl
+  have hq : ∀ γ : α, (evalProxImpl P γ it.u it.gradPsi).2.2.1 =
+      stageSumSq P (projStepV γ it.u it.gradPsi (tile P.N P.Ulb) (tile P.N P.Uub)) := fun _ => rfl
+  have hinf : ∀ γ : α, normInf (projStepV γ it.u it.gradPsi (tile P.N P.Ulb) (tile P.N P.Uub)) =
+      maxAbs (docRes γ it.u it.gradPsi (tile P.N P.Ulb) (tile P.N P.Uub)) := by
+    intro γ
+    rw [normInf_eq_maxAbs]
+    exact (maxAbs_congr_abs _ _ (docRes_abs hnn γ _ _ _ _)).symm
+  have hsq : ∀ γ : α, stageSumSq P (projStepV γ it.u it.gradPsi (tile P.N P.Ulb) (tile P.N P.Uub)) =
+      stageSumSq P (docRes γ it.u it.gradPsi (tile P.N P.Ulb) (tile P.N P.Uub)) := fun γ =>
+    (stageSumSq_congr_abs P _ _ (docRes_abs hnn γ _ _ _ _)).symm
+  unfold CritWithin
+  cases hc : pr.stopCrit
+  all_goals first
+    | (have hn : epsOf P pr it = none := by unfold epsOf; rw [hc]; rfl
+       rw [hn] at he; exact absurd he (by simp))
+    | skip
+  · have := hcf.1 hc
+    rw [he, hp, hinf] at this
+    simp only [] ; rw [← Option.some.inj this]; exact hle
+  · have := hcf.2.1 hc
+    rw [he, hq, hsq] at this
+    simp only []; rw [← Option.some.inj this]; exact hle
+  · have := hcf.2.2.1 hc
+    rw [he, hp, hinf] at this
+    simp only []; rw [← Option.some.inj this]; exact hle
+  · have := hcf.2.2.2.1 hc
+    rw [he, hq, hsq] at this
+    simp only []; rw [← Option.some.inj this]; exact hle
+  · have := hcf.2.2.2.2.1 hc
+    rw [he, hp, hinf] at this
+    simp only []; rw [inv_mul_eq_div, ← Option.some.inj this]; exact hle
+  · have := hcf.2.2.2.2.2 hc
+    rw [he, hq, hsq] at this
+    simp only []; rw [inv_mul_eq_div, ← Option.some.inj this]; exact hle
+
+/-- **`Converged` certifies, real-number reading — all six criteria PANOC-OCP supports.**
+    Over a linearly ordered field (no NaN), for a non-empty input box, under the explicit fuel bound
+    `FuelOK` (no `fuelOut` hypothesis), for all evaluator / direction oracles (Gauss-Newton steps always,
+    periodically or never), stop schedules, budgets, initial guesses: if the solver returns `Converged`
+    the iterate `it` that was current at exit (`Result.final`) has a step size `γ = it.γ` and a point
+    `u = it.u` — the **certified point**, the solver's last iterate `u_k` — such that with
+    `∇ψ(u) = it.∇ψ` = the backward oracle on the forward roll-out of `u`:
+    * the **returned** inputs are `û = Π_U(u − γ∇ψ(u))` (in general `≠ u`) and lie in `U`;
+    * the documented stationarity measure of the selected criterion **at `u`** (not at the returned `û`:
+      open finding `C13:residual-at-returned-point-exceeds-tolerance`) is within the effective tolerance
+      (`CritWithin`: `‖u − Π_U(u − γ∇ψ)‖∞`, `…‖₂`, the same with `γ = 1`, the same divided by `γ`);
+    * the criterion is one of the six supported ones. -/
 theorem ocp_converged_certifies_real {D : Type} (hnn : ∀ x : α, RealLike.isNaN x = false)
     (O : Oracles α) (dir : Dir D α) (P : Prob α) (d0 : D) (pr : Params α)
     (stop : Nat → Bool) (oot : Bool) (u0 y mu errz0 gV gQ : Vec α) (gS e0 : α)
     (hU : C03_Ocp.BoxOK P.Ulb P.Uub) (hUl : P.Ulb.length = P.Uub.length)
-    (hcrit : pr.stopCrit = .ProjGradNorm)
-    (hfuel : (run O dir P d0 pr stop oot u0 y mu errz0 gV gQ gS e0).fuelOut = false)
+    (nL nτ : Nat) (hp : FuelOK pr nL nτ)
     (hconv : (run O dir P d0 pr stop oot u0 y mu errz0 gV gQ gS e0).stats.status = .Converged) :
     C03_Ocp.InBoxV (tile P.N P.Ulb) (tile P.N P.Uub)
       (run O dir P d0 pr stop oot u0 y mu errz0 gV gQ gS e0).u ∧
-    ∃ (γ : α) (u : Vec α),
-      let g := O.bwd u (O.fwd u).2
-      let p := projStepV γ u g (tile P.N P.Ulb) (tile P.N P.Uub)
-      (run O dir P d0 pr stop oot u0 y mu errz0 gV gQ gS e0).u = vadd u p ∧
-      ∀ e ∈ p, |e| ≤ C06.effTol pr.tolerance := by
-  have hτ : TauSentinelOK α := by
-    constructor <;> simp [bne_iff_ne] <;> norm_num
-  obtain ⟨it, hc⟩ := ocp_converged_certifies O dir P d0 pr stop oot u0 y mu errz0 gV gQ gS e0 hτ hfuel hconv
-  refine ⟨C03_Ocp.ocp_u_out_in_U hnn O dir P d0 pr stop oot u0 y mu errz0 gV gQ gS e0 hU hUl hfuel hc.wrote,
-    it.gamma, it.u, ?_, ?_⟩
-  · rw [hc.u_out]
+    ∃ it : Iterate α,
+      (run O dir P d0 pr stop oot u0 y mu errz0 gV gQ gS e0).final = some it ∧
+      it.gradPsi = O.bwd it.u (O.fwd it.u).2 ∧
+      (run O dir P d0 pr stop oot u0 y mu errz0 gV gQ gS e0).u =
+        projGradV it.gamma it.u it.gradPsi (tile P.N P.Ulb) (tile P.N P.Uub) ∧
+      CritWithin P pr.stopCrit it.gamma it.u it.gradPsi (C06.effTol pr.tolerance) ∧
+      (run O dir P d0 pr stop oot u0 y mu errz0 gV gQ gS e0).stats.eps ≤ C06.effTol pr.tolerance := by
+  have hfuel := run_fuelOut_false O dir P d0 pr stop oot u0 y mu errz0 gV gQ gS e0 nL nτ hp
+  obtain ⟨it, hc⟩ := ocp_converged_certifies O dir P d0 pr stop oot u0 y mu errz0 gV gQ gS e0
+    C03_Ocp.tauSentinelOK hfuel hconv
+  refine ⟨C03_Ocp.ocp_u_out_in_U hnn O dir P d0 pr stop oot u0 y mu errz0 gV gQ gS e0 hU hUl nL nτ hp hc.wrote,
+    it, hc.final, by rw [hc.good.1.2.2, hc.good.1.1], ?_,
+    epsOf_eq_doc hnn P pr it hc.good.2.1 _ hc.eps_crit _ hc.eps_le, hc.eps_le⟩
+  rw [hc.u_out]
+  have h1 : it.uhat = (evalProxImpl P it.gamma it.u it.gradPsi).1 := congrArg Prod.fst hc.good.2.1
+  rw [h1, ← projStepV_eq_proj hnn]
+  rfl
+
+/-- The 2-norm criteria in sum-of-squares form: `√S ≤ tol` for a lawful square root and `S ≥ 0` means
+    `S ≤ tol²` (and `tol ≥ 0`). -/
+theorem sqrt_le_iff_sq (hs : Alpaqa.C08.LawfulSqrt α) (S tol : α) (hS : 0 ≤ S)
+    (h : RealLike.sqrt S ≤ tol) : 0 ≤ tol ∧ S ≤ tol ^ 2 := by
+  have h0 := hs.sqrt_nonneg S hS
+  have h1 := hs.sqrt_mul_self S hS
+  refine ⟨le_trans h0 h, ?_⟩
+  rw [← h1]
+  nlinarith
+
+theorem stageSumSq_nonneg (P : Prob α) (v : Vec α) : 0 ≤ stageSumSq P v := by
+  unfold stageSumSq
+  have e2 : ∀ (l : List (Vec α)) (a : α), 0 ≤ a → 0 ≤ l.foldl (fun acc pt => acc + sqNorm pt) a := by
+    intro l
+    induction l with
+    | nil => intro a ha; simpa using ha
+    | cons x xs ih =>
+      intro a ha
+      simp only [List.foldl_cons]
+      apply ih
+      rw [sqNorm_eq_sumSq]
+      exact add_nonneg ha (sumSq_nonneg x)
+  exact e2 _ 0 (le_refl _)
+
+/-- **The 2-norm criteria in sum-of-squares form** (lawful square root): `CritWithin` for `ProjGradNorm2`
+    / `ProjGradUnitNorm2` means `tol ≥ 0` and `Σ_stages ‖rₜ‖² ≤ tol²` for the residual `r = u − Π_U(u − γ∇ψ)`
+    (`γ = 1` for the unit variant); for `FPRNorm2` with `γ > 0`: `Σ ‖rₜ‖² ≤ (γ·tol)²`.  With
+    `stageSumSq_eq_sumSq` the left-hand side is `Σᵢ rᵢ²` for residuals of `N·nu` entries. -/
+theorem critWithin_two_norm (hs : Alpaqa.C08.LawfulSqrt α) (P : Prob α) (γ : α) (u g : Vec α) (tol : α) :
+    (CritWithin P .ProjGradNorm2 γ u g tol →
+      0 ≤ tol ∧ stageSumSq P (docRes γ u g (tile P.N P.Ulb) (tile P.N P.Uub)) ≤ tol ^ 2) ∧
+    (CritWithin P .ProjGradUnitNorm2 γ u g tol →
+      0 ≤ tol ∧ stageSumSq P (docRes 1 u g (tile P.N P.Ulb) (tile P.N P.Uub)) ≤ tol ^ 2) ∧
+    (0 < γ → CritWithin P .FPRNorm2 γ u g tol →
+      0 ≤ tol ∧ stageSumSq P (docRes γ u g (tile P.N P.Ulb) (tile P.N P.Uub)) ≤ (γ * tol) ^ 2) := by
+  refine ⟨fun h => sqrt_le_iff_sq hs _ _ (stageSumSq_nonneg _ _) h,
+    fun h => sqrt_le_iff_sq hs _ _ (stageSumSq_nonneg _ _) h, fun hγ h => ?_⟩
+  unfold CritWithin at h
+  simp only [] at h
+  have h' : RealLike.sqrt (stageSumSq P (docRes γ u g (tile P.N P.Ulb) (tile P.N P.Uub))) ≤ γ * tol := by
+    rw [inv_mul_le_iff₀ hγ] at h; exact h
+  have := sqrt_le_iff_sq hs _ _ (stageSumSq_nonneg _ _) h'
+  refine ⟨?_, this.2⟩
+  by_contra hneg
+  have : γ * tol < 0 := mul_neg_of_pos_of_neg hγ (not_le.mp hneg)
+  linarith [this, ‹0 ≤ γ * tol ∧ _›.1]
+
+/-! #### One-sided / unbounded input boxes (`Props/C03_Ocp`: `BndSpec`, `FarAt`, `IsClampO`) -/
+
+/-- **`Converged` certifies, for input boxes with infinite sides.**  `bs` gives, per input component,
+    the extended bounds (`none` = `∓∞`) and the finite stand-ins the field model computes with
+    (`P.Ulb = bs.map lbF`, `P.Uub = bs.map ubF`).  Then, with `(γ, u)` the certified point as in
+    `ocp_converged_certifies_real`:
+    * the returned inputs are `u + p`, the documented measure (computed with the stand-ins) is within the
+      tolerance at `u`;
+    * where the stand-ins are far enough for the step `u − γ∇ψ(u)` (`FarAt γ`: what makes the finite
+      `fmin/fmax` agree with IEEE `∓inf` arithmetic; automatic for finite bounds), the returned inputs are
+      the componentwise projection onto the *extended* box, lie in it, and the residual vector of the
+      measure is `u − Π_{U°}(u − γ∇ψ(u))`;
+    * likewise for the unit step of `ProjGradUnitNorm(2)` under `FarAt 1`. -/
+theorem ocp_converged_certifies_real_ext {D : Type} (hnn : ∀ x : α, RealLike.isNaN x = false)
+    (O : Oracles α) (dir : Dir D α) (P : Prob α) (d0 : D) (pr : Params α)
+    (stop : Nat → Bool) (oot : Bool) (u0 y mu errz0 gV gQ : Vec α) (gS e0 : α)
+    (bs : List (C03_Ocp.BndSpec α)) (hlb : P.Ulb = bs.map C03_Ocp.lbF) (hub : P.Uub = bs.map C03_Ocp.ubF)
+    (hok : ∀ b ∈ bs, C15.BoxOK b.1 b.2.1) (nL nτ : Nat) (hp : FuelOK pr nL nτ)
+    (hconv : (run O dir P d0 pr stop oot u0 y mu errz0 gV gQ gS e0).stats.status = .Converged) :
+    ∃ it : Iterate α,
+      (run O dir P d0 pr stop oot u0 y mu errz0 gV gQ gS e0).final = some it ∧
+      it.gradPsi = O.bwd it.u (O.fwd it.u).2 ∧
+      (run O dir P d0 pr stop oot u0 y mu errz0 gV gQ gS e0).u =
+        projGradV it.gamma it.u it.gradPsi (tile P.N P.Ulb) (tile P.N P.Uub) ∧
+      CritWithin P pr.stopCrit it.gamma it.u it.gradPsi (C06.effTol pr.tolerance) ∧
+      (C03_Ocp.FarAt it.gamma ((List.replicate P.N bs).flatten) it.u it.gradPsi →
+        C03_Ocp.IsClampO it.gamma ((List.replicate P.N bs).flatten) it.u it.gradPsi
+          (run O dir P d0 pr stop oot u0 y mu errz0 gV gQ gS e0).u ∧
+        docRes it.gamma it.u it.gradPsi (tile P.N P.Ulb) (tile P.N P.Uub) =
+          vsub it.u (run O dir P d0 pr stop oot u0 y mu errz0 gV gQ gS e0).u) ∧
+      (C03_Ocp.FarAt 1 ((List.replicate P.N bs).flatten) it.u it.gradPsi →
+        C03_Ocp.IsClampO 1 ((List.replicate P.N bs).flatten) it.u it.gradPsi
+          (projGradV 1 it.u it.gradPsi (tile P.N P.Ulb) (tile P.N P.Uub))) := by
+  have hfuel := run_fuelOut_false O dir P d0 pr stop oot u0 y mu errz0 gV gQ gS e0 nL nτ hp
+  obtain ⟨it, hc⟩ := ocp_converged_certifies O dir P d0 pr stop oot u0 y mu errz0 gV gQ gS e0
+    C03_Ocp.tauSentinelOK hfuel hconv
+  have e1 : tile P.N P.Ulb = ((List.replicate P.N bs).flatten).map C03_Ocp.lbF := by
+    unfold tile; rw [hlb]; exact C03_Ocp.tile_map P.N C03_Ocp.lbF bs
+  have e2 : tile P.N P.Uub = ((List.replicate P.N bs).flatten).map C03_Ocp.ubF := by
+    unfold tile; rw [hub]; exact C03_Ocp.tile_map P.N C03_Ocp.ubF bs
+  have hokT : ∀ b ∈ (List.replicate P.N bs).flatten, C15.BoxOK b.1 b.2.1 := by
+    intro b hb
+    rw [List.mem_flatten] at hb
+    obtain ⟨l, hl, hbl⟩ := hb
+    rw [List.mem_replicate] at hl
+    rw [hl.2] at hbl
+    exact hok b hbl
+  have hu : (run O dir P d0 pr stop oot u0 y mu errz0 gV gQ gS e0).u =
+      projGradV it.gamma it.u it.gradPsi (tile P.N P.Ulb) (tile P.N P.Uub) := by
+    rw [hc.u_out]
     have h1 : it.uhat = (evalProxImpl P it.gamma it.u it.gradPsi).1 := congrArg Prod.fst hc.good.2.1
-    rw [h1, hc.good.1.2.2, hc.good.1.1]
+    rw [h1, ← projStepV_eq_proj hnn]
     rfl
-  · intro e he
-    have hcf := (crit_formulas P pr it hc.good.2.1).1 hcrit
-    rw [hc.eps_crit] at hcf
-    have heq : (run O dir P d0 pr stop oot u0 y mu errz0 gV gQ gS e0).stats.eps =
-        normInf (evalProxImpl P it.gamma it.u it.gradPsi).2.1 := Option.some.inj hcf
-    have hle := hc.eps_le
-    rw [heq] at hle
-    refine le_trans (abs_le_normInf _ e ?_) hle
-    rw [hc.good.1.2.2, hc.good.1.1]
-    exact he
+  refine ⟨it, hc.final, by rw [hc.good.1.2.2, hc.good.1.1], hu,
+    epsOf_eq_doc hnn P pr it hc.good.2.1 _ hc.eps_crit _ hc.eps_le, ?_, ?_⟩
+  · intro hfar
+    refine ⟨?_, by rw [hu]; rfl⟩
+    rw [hu, ← projStepV_eq_proj hnn, e1, e2]
+    exact C03_Ocp.projStepV_clampO hnn _ _ _ _ hokT hfar
+  · intro hfar
+    rw [← projStepV_eq_proj hnn, e1, e2]
+    exact C03_Ocp.projStepV_clampO hnn _ _ _ _ hokT hfar
 
 end field
 
@@ -233,5 +504,113 @@ example :
 example : C06.effTol (0 : ℚ) = 1e-8 ∧ C06.effTol (1 : ℚ) = 1 := by
   constructor <;> simp [C06.effTol]
 end examples
+
+/-! ### Non-vacuity on concrete runs of `Ocp.run` (`Proofs/OcpExample`) -/
+section run_examples
+open Alpaqa.Ocp.Example
+
+theorem fuelOK_prC (c : PANOCStopCrit) : FuelOK (prC c) 23 9 :=
+  ⟨by norm_num [prC, prA], by norm_num [prC, prA], by norm_num [prC, prA], fun _ => by norm_num [prC, prA],
+    by norm_num [prC, prA], by norm_num [prC, prA]⟩
+
+/-- the L-BFGS run `rC` with tolerance `1/10`, for each of the three ∞-norm criteria: `Converged` after two
+    iterations (ProjGradNorm: ε = ‖p‖∞ = 80579/1024000; FPRNorm: four iterations), model fuel not exhausted,
+    and the returned `û` differs from the certified `u` -/
+example : (rC .ProjGradNorm none).stats.status = .Converged ∧ (rC .ProjGradNorm none).stats.iterations = 2 ∧
+    (rC .ProjGradNorm none).stats.eps = 80579/1024000 ∧ (rC .ProjGradNorm none).fuelOut = false ∧
+    (rC .ProjGradNorm none).u = [131741/1024000, -2381/25600] ∧
+    (rC .ProjGradNorm none).final.map (·.u) = some [1327/6400, -1067/12800] := by
+  decide +kernel
+example : (rC .FPRNorm none).stats.status = .Converged ∧ (rC .FPRNorm none).stats.iterations = 4 ∧
+    (rC .ProjGradUnitNorm none).stats.status = .Converged ∧
+    (rC .ProjGradNorm2 none).stats.status = .Converged ∧ (rC .ProjGradUnitNorm2 none).stats.status = .Converged ∧
+    (rC .FPRNorm2 none).stats.status = .Converged := by
+  decide +kernel
+
+/-- all hypotheses of `ocp_converged_certifies` / `ocp_converged_certifies_real` instantiated, for every
+    supported criterion `c` (`decide` evaluates the six runs) -/
+example (c : PANOCStopCrit)
+    (hc : c ∈ [PANOCStopCrit.ProjGradNorm, .ProjGradNorm2, .ProjGradUnitNorm, .ProjGradUnitNorm2, .FPRNorm, .FPRNorm2]) :
+    ∃ it : Iterate ℚ, (rC c none).final = some it ∧ it.gradPsi = OA.bwd it.u (OA.fwd it.u).2 ∧
+      (rC c none).u = projGradV it.gamma it.u it.gradPsi (tile PA.N PA.Ulb) (tile PA.N PA.Uub) ∧
+      CritWithin PA (prC c).stopCrit it.gamma it.u it.gradPsi (C06.effTol (prC c).tolerance) ∧
+      (rC c none).stats.eps ≤ C06.effTol (prC c).tolerance :=
+  (ocp_converged_certifies_real (fun _ => rfl) OA (dirOf 1 3) PA () (prC c) (stopAt none) false [1, 1/2]
+    [] [] [] [] [] 0 0 (by simp [PA, C03_Ocp.BoxOK]) rfl 23 9 (fuelOK_prC c)
+    (by
+      simp only [List.mem_cons, List.mem_nil_iff, or_false] at hc
+      rcases hc with rfl | rfl | rfl | rfl | rfl | rfl <;> decide +kernel)).2
+
+/-- the Gauss-Newton run with a stage constraint (`rB`): structural certificate -/
+example : ∃ it : Iterate ℚ, Certificate OB PB prB yB muB [0, 0] (rB none) it :=
+  ocp_converged_certifies OB (dirOf 1 4) PB () prB (stopAt none) false [1, 1/2] yB muB [0, 0] [] [] 0 0
+    (by constructor <;> decide) (by decide +kernel) (by decide +kernel)
+
+/-- a one-sided input box `U = [-1, +∞)`, represented with the stand-in `1000` for `+∞`: the run is the same
+    as with `[-1, 1]` as long as the stand-in is far enough for every step taken; at the certified iterate
+    `FarAt` holds, so the returned inputs are the projection onto the extended box -/
+def PAinf : Prob ℚ := { PA with Uub := [1000] }
+def bsInf : List (C03_Ocp.BndSpec ℚ) := [(some (-1), none, -1, 1000)]
+def rInf : Result ℚ Unit :=
+  run OA (dirOf 1 3) PAinf () (prC .ProjGradNorm) (stopAt none) false [1, 1/2] [] [] [] [] [] 0 0
+
+example : rInf.stats.status = .Converged ∧
+    rInf.final.map (fun it => (it.gamma, it.u, it.gradPsi)) =
+      some (19/80, [1327/6400, -1067/12800], [4241/12800, 13/320]) := by
+  decide +kernel
+
+example : ∃ it : Iterate ℚ, rInf.final = some it ∧
+    C03_Ocp.FarAt it.gamma ((List.replicate PAinf.N bsInf).flatten) it.u it.gradPsi ∧
+    C03_Ocp.IsClampO it.gamma ((List.replicate PAinf.N bsInf).flatten) it.u it.gradPsi rInf.u := by
+  obtain ⟨it, h1, _, _, _, h5, _⟩ := ocp_converged_certifies_real_ext (fun _ => rfl) OA (dirOf 1 3) PAinf ()
+    (prC .ProjGradNorm) (stopAt none) false [1, 1/2] [] [] [] [] [] 0 0 bsInf rfl rfl
+    (by intro b hb; simp [bsInf] at hb; subst hb; intro l h hl hh; simp at hh) 23 9 (fuelOK_prC _)
+    (by decide +kernel)
+  have hv : rInf.final.map (fun it => (it.gamma, it.u, it.gradPsi)) =
+      some (19/80, [1327/6400, -1067/12800], [4241/12800, 13/320]) := by decide +kernel
+  have h1' : rInf.final = some it := h1
+  rw [h1'] at hv
+  simp only [Option.map_some, Option.some.injEq, Prod.mk.injEq] at hv
+  obtain ⟨hg, hu, hgr⟩ := hv
+  have hfar : C03_Ocp.FarAt it.gamma ((List.replicate PAinf.N bsInf).flatten) it.u it.gradPsi := by
+    rw [hg, hu, hgr]
+    have e : (List.replicate PAinf.N bsInf).flatten =
+        [(some (-1), none, -1, 1000), (some (-1), none, -1, 1000)] := by decide +kernel
+    rw [e]
+    refine ⟨⟨rfl, ?_⟩, ⟨rfl, ?_⟩, trivial⟩ <;> simp only [C15.maxLbO] <;> norm_num
+  exact ⟨it, h1, hfar, (h5 hfar).1⟩
+
+end run_examples
+
+/-! ### Non-vacuity of the 2-norm reading over `ℝ` (lawful square root) -/
+section real_example
+noncomputable local instance realLikeRealC13 : RealLike ℝ := ⟨Real.sqrt, fun _ => false, fun _ => true⟩
+
+theorem lawfulSqrt_real : Alpaqa.C08.LawfulSqrt ℝ where
+  sqrt_nonneg := fun a _ => Real.sqrt_nonneg a
+  sqrt_mul_self := fun _ ha => Real.mul_self_sqrt ha
+
+/-- one stage, one input in `[-1, 1]` -/
+def P1 : Prob ℝ :=
+  { N := 1, nx := 1, nu := 1, nh := 0, nc := 0, nhN := 0, ncN := 0, Ulb := [-1], Uub := [1],
+    Dlb := [], Dub := [], DNlb := [], DNub := [] }
+
+/-- `u = ½`, `∇ψ = −2`, `γ = 1`: `u − Π_U(u − γ∇ψ) = ½ − 1 = −½`, `√(¼) = ½ ≤ 1` -/
+theorem p1_sumSq : stageSumSq P1 (docRes 1 [1/2] [-2] (tile P1.N P1.Ulb) (tile P1.N P1.Uub)) = 1/4 := by
+  simp [stageSumSq, stages, docRes, projGradV, tile, P1, vsub, vzip, sqNorm, vsum, redux]
+  norm_num
+
+theorem p1_within : CritWithin P1 .ProjGradNorm2 1 [1/2] [-2] 1 := by
+  unfold CritWithin
+  simp only []
+  rw [p1_sumSq]
+  show Real.sqrt (1/4) ≤ 1
+  rw [Real.sqrt_le_iff]
+  norm_num
+
+example : (0 : ℝ) ≤ 1 ∧ stageSumSq P1 (docRes 1 [1/2] [-2] (tile P1.N P1.Ulb) (tile P1.N P1.Uub)) ≤ 1 ^ 2 :=
+  (critWithin_two_norm lawfulSqrt_real P1 1 [1/2] [-2] 1).1 p1_within
+
+end real_example
 
 end Alpaqa.Props.C13
